@@ -555,6 +555,27 @@ func main() {
 		// source image types x Exact: the metadata (buffered) and no-metadata (streaming) paths must embed the
 		// same bitstream and decode to the same pixels whatever the concrete type of the source picture is
 		{
+			// option sweep: metadata switches Encode to its buffered code paths, which must make the
+			// same choices as the streaming ones for EVERY option value (fractional qualities included)
+			{
+				nilb := blobs[0]
+				for _, lossless := range []bool{true, false} {
+					for qi, q := range []float32{0, 9.5, 24.5, 25.5, 49.5, 74.5, 75.5, 89.5, 99.5, 100, float32(rng.Intn(1000)) / 10} {
+						o := webp.DefaultOptions()
+						o.Lossless = lossless
+						o.Quality = q
+						o.Method = []int{0, 2, 3, 4, 6}[(qi+b2iC15(lossless))%5]
+						o.Exact = qi%2 == 0
+						img := testImage(rng, 13, 9, 2*b2iC15(qi%3 == 0), 30)
+						k := stillKind{fmt.Sprintf("optsweep-lossless=%v-q=%v-m=%d", lossless, q, o.Method), lossless, 0}
+						var ref stillRef
+						c15Still(c, k, img, o, nilb, nilb, nilb, &ref)
+						c15Still(c, k, img, o, nilb, small[4], nilb, &ref)
+						c15Still(c, k, img, o, small[2], nilb, small[3], &ref)
+						c.Count("stream:option-sweep")
+					}
+				}
+			}
 			nilb := blobs[0]
 			w, h := 7, 5
 			for _, src := range c15Sources(rng, w, h) {
@@ -613,4 +634,11 @@ func main() {
 			}
 		}
 	})
+}
+
+func b2iC15(b bool) int {
+	if b {
+		return 1
+	}
+	return 0
 }
